@@ -247,6 +247,93 @@ def _run_case(args):
     return d
 
 
+def _mem_limit():
+    """address-space cap per case (GB): a case that outgrows it gets a MemoryError and is reported inconclusive instead of
+    inviting the kernel's OOM killer"""
+    try:
+        return float(os.environ.get("VERIF_CASE_MEM_GB", "10" if tier() == "quick" else "14"))
+    except ValueError:
+        return 10.0
+
+
+def _child(conn, a):
+    try:
+        import resource
+
+        lim = int(_mem_limit() * 2**30)
+        resource.setrlimit(resource.RLIMIT_AS, (lim, lim))
+    except Exception:
+        pass
+    try:
+        d = _run_case(a)
+    except BaseException as e:  # MemoryError while exporting, KeyboardInterrupt, ...
+        d = _dead_case(a, "worker failed with %s: %s" % (type(e).__name__, e))
+    try:
+        conn.send(d)
+    except Exception as e:
+        try:
+            conn.send(_dead_case(a, "result of the case could not be sent back: %s" % e))
+        except Exception:
+            pass
+    conn.close()
+
+
+def _dead_case(a, why):
+    log = CaseLog(a[1], a[0], random.Random(0))
+    log.inconclusive.append("%s: %s" % (a[1], why))
+    d = log.export()
+    d["stats"] = {}
+    d["wall_s"] = 0.0
+    return d
+
+
+def _schedule(args, workers):
+    """one forked process per case, at most `workers` at a time; a worker that dies (OOM kill, segfault in a solver) yields an
+    inconclusive case instead of a hung or crashed check"""
+    cx = mpc.get_context("fork")
+    pending = list(enumerate(args))
+    running = {}  # index -> (process, conn, args)
+    results = {}
+    while pending or running:
+        while pending and len(running) < workers:
+            i, a = pending.pop(0)
+            pc, cc = cx.Pipe(duplex=False)
+            p = cx.Process(target=_child, args=(cc, a), daemon=True)
+            p.start()
+            cc.close()
+            running[i] = (p, pc, a)
+        progressed = False
+        for i, (p, pc, a) in list(running.items()):
+            got = None
+            try:
+                if pc.poll(0):
+                    got = pc.recv()
+            except (EOFError, OSError):
+                got = None
+            if got is not None:
+                results[i] = got
+                p.join(5)
+                pc.close()
+                del running[i]
+                progressed = True
+            elif not p.is_alive():
+                # drained nothing and the process is gone
+                try:
+                    if pc.poll(0.2):
+                        results[i] = pc.recv()
+                except (EOFError, OSError):
+                    pass
+                if i not in results:
+                    results[i] = _dead_case(a, "worker process died (exit code %s: memory limit / kill) before finishing" % p.exitcode)
+                    sys.stderr.write("[%s] case %s: worker died (exit code %s)\n" % (a[0], a[1], p.exitcode))
+                pc.close()
+                del running[i]
+                progressed = True
+        if not progressed:
+            time.sleep(0.05)
+    return [results[i] for i in range(len(args))]
+
+
 # ---------------------------------------------------------------------------
 # the check
 # ---------------------------------------------------------------------------
@@ -284,12 +371,7 @@ class Check:
                 load = os.getloadavg()[0]
                 cap = 16 if load < 8 else max(3, int(16 - load / 3))
             workers = min(cap, max(1, len(args)))
-        if workers == 1 or len(args) == 1:
-            results = [_run_case(a) for a in args]
-        else:
-            cx = mpc.get_context("fork")
-            with cx.Pool(workers, maxtasksperchild=1) as pool:
-                results = pool.map(_run_case, args, chunksize=1)
+        results = _schedule(args, workers)
         return self.finish(results)
 
     # -----------------------------------------------------------------
